@@ -1059,8 +1059,12 @@ func (c TailCallInstr) Execute(env *Zlisp) error {
 		return fail(err)
 	}
 	nargs := len(c.args)
-	// as CallFunction does: named arguments are put in declaration
+	// as CallFunction does: dot paths are resolved while the caller's
+	// scopes are still there, named arguments are put in declaration
 	// order and the declared input types are checked.
+	if err := env.resolveDotArgs(nargs); err != nil {
+		return fail(err)
+	}
 	if f.inputTypes != nil && !f.varargs {
 		if err := env.FunctionCallNameTypeCheck(f, &nargs); err != nil {
 			return fail(err)
